@@ -85,7 +85,18 @@ def prop_case(draw, tier="quick"):
                 "with_ps": draw(st.booleans())}
     dx = draw(cm.scalar_or_pair(samp["dx"]))
     du = draw(cm.scalar_or_pair(samp["du"]))
-    return {"shape": list(shape), "planes": planes, "dx": dx, "du": du, "wavelength": wl, "oversample": os_,
+    period = None
+    if draw(st.integers(0, 7)) == 0:
+        # the evaluated window (or the whole output) spans exactly one period of the transform, two, or half of one:
+        # alpha * samples = 1, 2, 1/2 per axis; the pupil may be smaller or larger than that window
+        eff = shape if out_shape is None else cm.shape_pair(out_shape)
+        pr = eff if prop_shape is None else cm.shape_pair(prop_shape)
+        tgt = pr if draw(st.booleans()) else eff
+        period = draw(st.sampled_from([1.0, 1.0, 2.0, 0.5]))
+        dxp = cm.ps_pair(dx)
+        zf = planes[-1]["f"]
+        du = [period * wl * zf * os_ / (dxp[0] * tgt[0] * os_), period * wl * zf * os_ / (dxp[1] * tgt[1] * os_)]
+    return {"period": period, "shape": list(shape), "planes": planes, "dx": dx, "du": du, "wavelength": wl, "oversample": os_,
             "out_shape": out_shape, "prop_shape": prop_shape, "mask": mask, "back": back}
 
 
@@ -153,6 +164,8 @@ def dft(case, ctx):
             "per_axis_dx" if dxp[0] != dxp[1] else None, "per_axis_du" if dup[0] != dup[1] else None,
             "prop<shape" if win != full else None, "mask" if case["mask"] is not None else None,
             f"os:{os_}", "image_to_pupil" if case["back"] else None, f"chain_len:{len(case['planes'])}",
+            f"window_periods:{case['period']}" if case.get("period") else None,
+            "pupil_larger_than_window" if shape[0] > win[0] or shape[1] > win[1] else None,
             "nonsquare_in" if shape[0] != shape[1] else None, "shape:none" if case["out_shape"] is None else None,
             "amp_scale:%.0e" % float(np.max(np.abs(case["planes"][0]["amp"]))))
     nz = int(np.count_nonzero(model))
